@@ -22,11 +22,11 @@ import (
 // slowWriting is the write-reset policy with a user callback that takes its time on reads.
 type slowWriting struct {
 	keepOnUpdate bool // creation-only policy: an update keeps the deadline as well
-	ttl   time.Duration
-	seed  uint64
-	ctr   atomic.Uint64
-	perM  int
-	reads atomic.Int64
+	ttl          time.Duration
+	seed         uint64
+	ctr          atomic.Uint64
+	perM         int
+	reads        atomic.Int64
 }
 
 func (s *slowWriting) ExpireAfterCreate(e otter.Entry[int, int]) time.Duration { return s.ttl }
